@@ -73,18 +73,63 @@ timeout: 1200
 desc: the real lzma_crc64 agrees with the bit-at-a-time definition on a basis of the GF(2)-linear input space for buffers that exercise prologue, slice-by-4 main loop and tail; not counted as a proof (see C14.crc32.basis)
 */
 /*@obligation
-id: C14.sha256.lengths
+id: C14.sha256.lengths.0_33
+defs: -DSHA_LO=0 -DSHA_HI=33
 props: C14
 entry: h_sha256_lengths
 objbits: 12
-tier: thorough
 unwind: 260
 kind: bounded
-bound: every message length 0..130 bytes (all 64 residues, one- and two-block paddings, three-block messages) with fixed byte content, fed in one piece and in two pieces split at every 7th position
+bound: (slice 0..33 of) every message length 0..130 bytes (all 64 residues, one- and two-block paddings, three-block messages) with fixed byte content, fed in one piece and in two pieces split at every 7th position
 fn: lzma_sha256_init lzma_sha256_update lzma_sha256_finish transform
 sentinels: 1
 expect: 5
-timeout: 1800
+timeout: 900
+desc: lzma_sha256_init/update/finish produce the FIPS 180-4 digest (independent reference) for every message LENGTH 0..130: the 0x80 marker, zero fill, the extra block when fewer than 8 bytes remain, the 64-bit big-endian bit length and the big-endian output words; also when the message is fed in two pieces. Content is fixed, so the compression function is exercised, not proved
+*/
+/*@obligation
+id: C14.sha256.lengths.34_66
+defs: -DSHA_LO=34 -DSHA_HI=66
+props: C14
+entry: h_sha256_lengths
+objbits: 12
+unwind: 260
+kind: bounded
+bound: (slice 34..66 of) every message length 0..130 bytes (all 64 residues, one- and two-block paddings, three-block messages) with fixed byte content, fed in one piece and in two pieces split at every 7th position
+fn: lzma_sha256_init lzma_sha256_update lzma_sha256_finish transform
+sentinels: 1
+expect: 5
+timeout: 900
+desc: lzma_sha256_init/update/finish produce the FIPS 180-4 digest (independent reference) for every message LENGTH 0..130: the 0x80 marker, zero fill, the extra block when fewer than 8 bytes remain, the 64-bit big-endian bit length and the big-endian output words; also when the message is fed in two pieces. Content is fixed, so the compression function is exercised, not proved
+*/
+/*@obligation
+id: C14.sha256.lengths.67_99
+defs: -DSHA_LO=67 -DSHA_HI=99
+props: C14
+entry: h_sha256_lengths
+objbits: 12
+unwind: 260
+kind: bounded
+bound: (slice 67..99 of) every message length 0..130 bytes (all 64 residues, one- and two-block paddings, three-block messages) with fixed byte content, fed in one piece and in two pieces split at every 7th position
+fn: lzma_sha256_init lzma_sha256_update lzma_sha256_finish transform
+sentinels: 1
+expect: 5
+timeout: 900
+desc: lzma_sha256_init/update/finish produce the FIPS 180-4 digest (independent reference) for every message LENGTH 0..130: the 0x80 marker, zero fill, the extra block when fewer than 8 bytes remain, the 64-bit big-endian bit length and the big-endian output words; also when the message is fed in two pieces. Content is fixed, so the compression function is exercised, not proved
+*/
+/*@obligation
+id: C14.sha256.lengths.100_130
+defs: -DSHA_LO=100 -DSHA_HI=130
+props: C14
+entry: h_sha256_lengths
+objbits: 12
+unwind: 260
+kind: bounded
+bound: (slice 100..130 of) every message length 0..130 bytes (all 64 residues, one- and two-block paddings, three-block messages) with fixed byte content, fed in one piece and in two pieces split at every 7th position
+fn: lzma_sha256_init lzma_sha256_update lzma_sha256_finish transform
+sentinels: 1
+expect: 5
+timeout: 900
 desc: lzma_sha256_init/update/finish produce the FIPS 180-4 digest (independent reference) for every message LENGTH 0..130: the 0x80 marker, zero fill, the extra block when fewer than 8 bytes remain, the 64-bit big-endian bit length and the big-endian output words; also when the message is fed in two pieces. Content is fixed, so the compression function is exercised, not proved
 */
 /*@obligation
@@ -211,7 +256,11 @@ static void sha_ref_and_real(size_t n, size_t split)
 
 void h_sha256_lengths(void)
 {
-	for (size_t n = 0; n <= 130; ++n) {
+#ifndef SHA_LO
+#	define SHA_LO 0
+#	define SHA_HI 130
+#endif
+	for (size_t n = SHA_LO; n <= SHA_HI; ++n) {
 		sha_ref_and_real(n, n);
 		if (n % 7 == 3) sha_ref_and_real(n, n / 2 + 1);
 	}
